@@ -110,6 +110,7 @@ Theorem C08_nested_and_mix_statements : forall call join ctx s k rest src out,
   simple s = true -> plain_query s = true ->
   s_with s = [] -> s_from s = FTable (k :: rest) "" ->
   cte_lookup k (c_ctes ctx) = None ->
+  up_read ctx (k :: rest) = None ->     (* the path meets no CTE thunk of an enclosing query behind `<-` *)
   reader (k :: rest) (VObj (c_data ctx)) = Ok (VArr src) ->
   nested_result (converges call join ctx s) src out ->
   stmt_converges call join ctx (SSelect s) out /\
